@@ -301,6 +301,37 @@ def shard_history(args):
     return acc.export()
 
 
+def shard_debug_logging(args):
+    """The program has switched on DEBUG logging (root logger and 'curtsies' loggers, no output handler): the decoder must behave the
+    same.  History pass (part 0) and the scalar streams of the first planes, with logging on for the duration of this shard."""
+    tier, seed, which = args
+    import logging
+
+    loggers = [logging.getLogger(), logging.getLogger("curtsies"), logging.getLogger("curtsies.events"), logging.getLogger("curtsies.input")]
+    old = [(lg, lg.level, lg.disabled) for lg in loggers]
+    handler = logging.NullHandler()
+    logging.getLogger().addHandler(handler)
+    prev_disable = logging.root.manager.disable
+    logging.disable(logging.NOTSET)
+    for lg in loggers:
+        lg.setLevel(logging.DEBUG)
+        lg.disabled = False
+    try:
+        if which == 0:
+            return shard_history((tier, seed, 0))
+        if which == 1:
+            return shard_streams_scalars((tier, seed, 0x0, 0x3000, 7))
+        if which == 2:
+            return shard_streams_scalars((tier, seed, 0x1F000, 0x20000, 5))
+        return shard_streams_table((tier, seed, "utf-8", which))
+    finally:
+        for lg, lvl, dis in old:
+            lg.setLevel(lvl)
+            lg.disabled = dis
+        logging.getLogger().removeHandler(handler)
+        logging.disable(prev_disable)
+
+
 def shard_paste(args):
     """The decoder as driven by Input's paste loop (multi-kilobyte bursts read 1 024 bytes at a time): a recognised sequence or a
     character lying across a read boundary must still come out whole.  Reuses C08's virtual kernel and large-burst scenarios."""
@@ -309,7 +340,7 @@ def shard_paste(args):
     from mc.props import c08
 
     acc = Acc(seed=seed)
-    scns = [s_ for s_ in c08.family_large(tier == "thorough") if s_["paste_threshold"] == 8]
+    scns = [s_ for s_ in c08.family_large(tier == "thorough") if s_["paste_threshold"] is not None and s_["paste_threshold"] <= 100]
     for si in range(idx, len(scns), 8):
         scn = scns[si]
         obs, fails, meta = c08.run_scenario(scn, vk.Chooser(()))
@@ -384,6 +415,8 @@ def run(ctx, keep=PREFIX):
         rep.merge(d, "history_independence")
     for d in ctx.pmap(shard_paste, [(ctx.tier, ctx.seed, i) for i in range(8)]):
         rep.merge(d, "paste_loop")
+    for d in ctx.pmap(shard_debug_logging, [(ctx.tier, ctx.seed, i) for i in range(6)]):
+        rep.merge(d, "debug_logging_switched_on")
     for d in ctx.pmap(shard_streams_table, [(ctx.tier, ctx.seed, enc, i) for enc in D.ENCODINGS for i in range(16)]):
         rep.merge(d, "streams_table")
     step = 1 if ctx.thorough else 64
